@@ -1,12 +1,18 @@
-'''C01: see harness/vp/schedcheck.py (shared driver of the scheduler checks)'''
-from vp import common, schedcheck
+'''C01: see harness/vp/schedcheck.py (shared driver of the scheduler checks) and
+harness/vp/envapply.py (the merge of the update into the environment)'''
+from vp import common, schedcheck, envapply
 
 
 def run(ctx):
     common.import_repo()
     schedcheck.run(ctx, 'C01')
+    envapply.run(ctx)     # the content of the update: Env.apply vs coq/Sched/EnvApply.v
 
 
 def replay(ctx, path):
+    import json
     common.import_repo()
+    case = json.load(open(path)).get('case') or {}
+    if 'envapply' in case:
+        return envapply.replay(ctx, case['envapply'])
     return schedcheck.replay(ctx, path, 'C01')
